@@ -523,10 +523,51 @@ func runC11(c *Ctx, r *Report) {
 	}
 
 	// R6: nothing but the function cache asks object.Hashable (true for small representations only)
-	r.Rule("C11.R6", "representation independence of admissibility: object.Hashable (true for arrays up to 8 elements and maps up to 4 pairs, false beyond) is called only by the memoization cache and by itself; no map or array operation may accept or reject a value with it")
+	r.Rule("C11.R6", "representation independence of admissibility: object.Hashable (true for arrays up to 8 elements and maps up to 4 pairs, false beyond) is called only by the memoization cache, by itself and by helpers that only those call; no map or array operation may accept or reject a value with it")
 	{
 		hash := c.Fn("object", "Hashable")
 		allowed := map[string]bool{"eval.(Cache).Get": true, "eval.(Cache).Set": true, "object.Hashable": true}
+		// a helper that only the cache (or Hashable itself, or another such helper) calls works for the cache:
+		// fixpoint over the static callers, functions used as values excluded
+		{
+			callers := map[*ssa.Function][]*ssa.Function{}
+			taken := map[*ssa.Function]bool{}
+			for _, fn := range c.ModuleSSAFuncs() {
+				eachInstr(fn, func(in ssa.Instruction) {
+					if call, ok := in.(ssa.CallInstruction); ok {
+						if callee := call.Common().StaticCallee(); callee != nil {
+							callers[callee] = append(callers[callee], fn)
+						}
+					}
+					for _, op := range in.Operands(nil) {
+						if f, ok := (*op).(*ssa.Function); ok {
+							if call, isCall := in.(ssa.CallInstruction); !(isCall && call.Common().Value == *op) {
+								taken[f] = true
+							}
+						}
+					}
+				})
+			}
+			for changed := true; changed; {
+				changed = false
+				for _, fn := range c.ModuleSSAFuncs() {
+					name := ssaFuncName(fn)
+					if allowed[name] || taken[fn] || len(callers[fn]) == 0 {
+						continue
+					}
+					all := true
+					for _, cf := range callers[fn] {
+						if !allowed[ssaFuncName(cf)] {
+							all = false
+						}
+					}
+					if all {
+						allowed[name] = true
+						changed = true
+					}
+				}
+			}
+		}
 		n6 := 0
 		for _, fn := range c.ModuleSSAFuncs() {
 			for _, call := range callsIn(fn, hash) {
